@@ -1492,9 +1492,7 @@ impl Linearizer {
         rhs: Exp,
         name: String,
     ) -> Result<(), LinearizationError> {
-        let exp = Exp::BinOp(BinOp::Sub, lhs.to_box(), rhs.to_box())
-            .flatten()
-            .simplify();
+        let exp = normalize(Exp::BinOp(BinOp::Sub, lhs.to_box(), rhs.to_box()));
         let requirement = match comparison {
             Comparison::LessOrEqual | Comparison::Less => ValueRequirement::PreferLower,
             Comparison::GreaterOrEqual | Comparison::Greater => ValueRequirement::PreferHigher,
@@ -1551,7 +1549,7 @@ impl Linearizer {
         bounds.apply_to_domain(&mut domain);
         let mut context = Linearizer::new_from_with_bounds(constraints, domain, bounds);
         let objective_type = objective.objective_type.clone();
-        let objective_exp = objective.rhs.flatten().simplify();
+        let objective_exp = normalize(objective.rhs);
         let objective_requirement = match &objective_type {
             OptimizationType::Min => ValueRequirement::PreferLower,
             OptimizationType::Max => ValueRequirement::PreferHigher,
@@ -1561,8 +1559,8 @@ impl Linearizer {
         while let Some(constraint) = context.pop_constraint() {
             let is_logic_assertion = constraint.is_logic_assertion();
             let (lhs, op, rhs, name) = constraint.into_parts();
-            let lhs = lhs.flatten().simplify();
-            let rhs = rhs.flatten().simplify();
+            let lhs = normalize(lhs);
+            let rhs = normalize(rhs);
             if is_logic_assertion {
                 lower_logic_assertion(&lhs, true, &name, &mut context)?;
                 continue;
@@ -1646,6 +1644,14 @@ impl Linearizer {
     }
 }
 
+/// Constant sub-expressions are folded BEFORE distribution, so that a
+/// coefficient spelled `(1 + 1)` or `(0 - 3)` is the same single scale as the
+/// literal: distributing it first would split one `k * max{..}` term into
+/// several terms lowered in different directions.
+fn normalize(exp: Exp) -> Exp {
+    exp.simplify().flatten().simplify()
+}
+
 /// Bound inference reads constraints syntactically (a coefficient must be a
 /// literal), so it is given the same flattened and simplified form the
 /// lowering itself works on: `-2 * x`, `(0 - 2) * x` and `-2x` then yield the
@@ -1654,14 +1660,14 @@ pub(crate) fn normalized_for_bounds(constraints: &[Constraint]) -> Vec<Constrain
     constraints
         .iter()
         .map(|constraint| {
-            let lhs = constraint.lhs().clone().flatten().simplify();
+            let lhs = normalize(constraint.lhs().clone());
             if constraint.is_logic_assertion() {
                 Constraint::new_logic_assertion(lhs, constraint.name().to_string())
             } else {
                 Constraint::new(
                     lhs,
                     constraint.constraint_type(),
-                    constraint.rhs().clone().flatten().simplify(),
+                    normalize(constraint.rhs().clone()),
                     constraint.name().to_string(),
                 )
             }
